@@ -525,6 +525,29 @@ def _finish_fn(d, log, sig, body, src_start, src_end, sha, dropped_attrs, emitte
             raise LostAnchor(f'{d.qual}: bindtail: the body has no tail expression')
         body = body[:start] + f'\nlet {nm} = ' + tail.strip() + ';\n' + f'/*@tail@*/ {nm}\n' + body[toks[c].start:]
         log.append(dict(rule="A4'", fn=d.qual, what=f'tail expression bound to `{nm}`'))
+    if d.opts.get('loopctl'):
+        # rule R24: an arm of a `match`/`select!` that sits in a loop is extracted as a function; its `continue;` and
+        # `break;` (which refer to that enclosing loop) become `return LoopCtl::Continue;` / `return LoopCtl::Break;`
+        # and falling out of the arm is `LoopCtl::Next` (given as //@tail).  Refused if the arm itself contains a loop,
+        # a labelled break/continue or a break with a value (then the keywords would not refer to the enclosing loop).
+        toks = rustlex.lex(body)
+        out = []
+        n = 0
+        for i, t in enumerate(toks):
+            if t.kind == 'ident' and t.text in ('loop', 'while', 'for'):
+                raise LostAnchor(f'{d.qual}: rule R24 does not handle an arm that contains a loop')
+            if t.kind == 'ident' and t.text in ('break', 'continue'):
+                j = i + 1
+                while j < len(toks) and toks[j].kind in rustlex.SIG:
+                    j += 1
+                if j >= len(toks) or toks[j].text not in (';', ',', '}'):
+                    raise LostAnchor(f'{d.qual}: rule R24 handles only plain `break` / `continue`')
+                out.append('return LoopCtl::' + ('Break' if t.text == 'break' else 'Continue'))
+                n += 1
+            else:
+                out.append(t.text)
+        body = ''.join(out)
+        log.append(dict(rule='R24', fn=d.qual, what=f'{n} break/continue of the enclosing loop turned into LoopCtl return values'))
     if d.opts.get('mutself'):
         # rule R20: Verus does not support a `mut self` receiver.  Alpha-renaming: the parameter becomes `self`,
         # the body starts with `let mut this_ = self;` and every `self` token of the body becomes `this_`.
